@@ -266,6 +266,9 @@ pub fn c11() -> Outcome {
         ("maximisation", { let mut i = base(); i.sense = v1::instance::Sense::Maximize as i32; i }),
         ("integer variable used", { let mut i = base(); i.decision_variables[2] = dv(3, Kind::Integer, Some((0.0, 1.0))); i }),
         ("continuous variable used", { let mut i = base(); i.decision_variables[0] = dv(1, Kind::Continuous, Some((0.0, 1.0))); i }),
+        // a used id that is not declared at all is not a binary variable of the instance either
+        ("objective uses an undeclared id", { let mut i = base(); i.objective = Some(f_of(F::Polynomial(poly(&[(&[1, 2], 2.0), (&[1], -1.0), (&[7], 3.0), (&[], 0.5)])))); i }),
+        ("objective (linear) uses an undeclared id", { let mut i = base(); i.objective = Some(f_of(F::Linear(lin(&[(1, 1.0), (9, 2.0)], 0.0)))); i }),
         // the non-binary variable is used although its monomials would cancel under x^k = x (which does not hold for it): x1*x1 - x1 is 2 at x1 = 2
         ("integer variable used in x1*x1 - x1 + x2 (polynomial)", { let mut i = base(); i.decision_variables[0] = dv(1, Kind::Integer, Some((0.0, 3.0)));
             i.objective = Some(f_of(F::Polynomial(poly(&[(&[1, 1], 1.0), (&[1], -1.0), (&[2], 1.0)])))); i }),
@@ -468,12 +471,21 @@ pub fn c16() -> Outcome {
         }
     }
     // evaluate_bound encloses f on the box
-    let fs = plain_functions();
-    let bxs: Vec<[(f64, f64); 3]> = vec![[(-1.0, 2.0), (0.0, 1.0), (-2.0, -0.5)], [(-inf, 0.0), (0.5, 0.5), (-1.0, inf)], [(0.0, 0.0), (-3.0, 3.0), (1.0, 2.0)], [(-inf, inf), (0.0, 1.0), (0.0, 3.0)]];
+    let mut fs = plain_functions();
+    // explicit zero coefficients (legal on the wire): such a term contributes nothing, whatever the bounds of its variables are
+    fs.push(f_of(F::Quadratic(quad(&[(1, 3, 0.0), (2, 2, 1.5)], Some(lin(&[(3, 0.0), (1, -1.0)], 0.5))))));
+    fs.push(f_of(F::Polynomial(poly(&[(&[1, 3], 0.0), (&[3, 3, 1], 0.0), (&[2], 2.0), (&[], 0.0)]))));
+    fs.push(f_of(F::Linear(lin(&[(3, 0.0), (2, 1.0)], 0.0))));
+    let bxs: Vec<[(f64, f64); 3]> = vec![[(-1.0, 2.0), (0.0, 1.0), (-2.0, -0.5)], [(-inf, 0.0), (0.5, 0.5), (-1.0, inf)], [(0.0, 0.0), (-3.0, 3.0), (1.0, 2.0)], [(-inf, inf), (0.0, 1.0), (0.0, 3.0)],
+                                         [(1.0, 2.0), (0.0, 1.0), (0.0, inf)], [(0.0, 0.0), (0.0, 1.0), (-inf, inf)]];
+    // the one documented panic (outside the quantifier): a monomial with a NON-ZERO coefficient multiplies the interval [0, 0] of one variable with an unbounded interval of another
+    let zero_times_unbounded = |f: &Function, bx: &[(f64, f64); 3]| -> bool {
+        f.into_iter().any(|(ids, c)| c != 0.0 && ids.iter().any(|i| (1..=3).contains(i) && bx[*i as usize - 1] == (0.0, 0.0)) && ids.iter().any(|i| (1..=3).contains(i) && !(bx[*i as usize - 1].0.is_finite() && bx[*i as usize - 1].1.is_finite())))
+    };
     for (fi, f) in fs.iter().enumerate() { for (bi, bx) in bxs.iter().enumerate() {
         n += 1; d.insert((4000 + fi, bi));
         let bounds: HashMap<ommx::VariableID, ommx::Bound> = (0..3).map(|k| (ommx::VariableID::from(k as u64 + 1), ommx::Bound::new(bx[k].0, bx[k].1).unwrap())).collect();
-        let fb = match std::panic::catch_unwind(|| f.evaluate_bound(&bounds)) { Ok(b) => b, Err(_) => continue /* 0 * unbounded: documented panic outside the quantifier */ };
+        let fb = match std::panic::catch_unwind(|| f.evaluate_bound(&bounds)) { Ok(b) => b, Err(_) => { if zero_times_unbounded(f, bx) { continue; } fail!(n, d, "evaluate_bound of {f:?} on the box {bx:?} panicked instead of returning an interval") } };
         if !valid(&fb) { fail!(n, d, "evaluate_bound of {f:?} on {bx:?} = {fb:?} is not a valid interval"); }
         for x in pts(bx[0]) { for y in pts(bx[1]) { for z in pts(bx[2]) {
             let s: HashMap<u64, f64> = [(1u64, x), (2, y), (3, z)].into_iter().collect();
@@ -595,6 +607,12 @@ pub fn c02() -> Outcome {
             f_of(F::Quadratic(quad(&[(3, 3, huge)], None))),
             f_of(F::Polynomial(poly(&[(&[1, 1, 1], huge)]))),
         ];
+        // a scalar below machine epsilon is still a scalar: tiny * (huge coefficients) has ordinary coefficients
+        for (bi, b) in large.iter().enumerate() {
+            n += 1; d.insert((2000, bi));
+            if let Err(e) = check("scalar multiple (1e-16 * b)", &(tiny * b.clone()), b, None, &|x, _| tiny * x) { fail!(n, d, "{e}"); }
+            if let Err(e) = check("scalar multiple (b * 1e-16)", &(b.clone() * tiny), b, None, &|x, _| x * tiny) { fail!(n, d, "{e}"); }
+        }
         for (ai, a) in small.iter().enumerate() {
             for (bi, b) in large.iter().enumerate() {
                 if deg(a) != deg(b) { continue; }
